@@ -199,9 +199,11 @@ def _args_match(ctx, R, T):
     env = kind_env(f)
     n_cmp = 0
     for rn in g.live_nodes():
-        if not (rn.kind == "stmt" and isinstance(rn.ast, ast.Return) and rn.ast.value is not None):
-            continue
-        for cmp_ in [x for x in ast.walk(rn.ast.value) if isinstance(x, ast.Compare)]:
+        exprs_ = [e for e in rn.exprs()]
+        cmps = []
+        for e in exprs_:
+            cmps.extend(x for x in ast.walk(e) if isinstance(x, ast.Compare))
+        for cmp_ in cmps:
             if len(cmp_.ops) != 1:
                 continue
             left = T.term(f, rn, cmp_.left, env)
@@ -222,13 +224,96 @@ def _args_match(ctx, R, T):
                     "`%s` compares a %s id of the packet with %s of the stream: with local id != remote id packets are matched to the wrong stream" % (
                         src(cmp_), "local" if kl == L else "remote", "/".join(kr)), f.loc(rn.ast))
     R.count("KIND-match", n_cmp, 4)
-    # both ids take part in every return
-    for rn in g.live_nodes():
-        if rn.kind == "stmt" and isinstance(rn.ast, ast.Return) and rn.ast.value is not None:
-            names = set(x.id for x in ast.walk(rn.ast.value) if isinstance(x, ast.Name))
-            attrs = set(x.attr for x in ast.walk(rn.ast.value) if isinstance(x, ast.Attribute))
-            R.check({"arg0", "arg1"} <= names and {"local_id", "remote_id"} <= attrs, "KIND-match", "%s|both|%s" % (f.qualname, norm_stmt(rn.ast)),
-                    "both ids take part in the match", "the stream match ignores one of the two ids (`%s`)" % norm_stmt(rn.ast), f.loc(rn.ast))
+    # decision table: the function is evaluated over the finite set of outcomes of its comparisons (the ids are touched
+    # only through comparisons) and must equal  (arg1 matches local) and (remote unknown or arg0 matches remote),
+    # where "matches" also accepts 0 when allow_zeros is set
+    import itertools
+    atoms = ("A1", "A0", "RN", "Z", "Z1", "Z0")
+    selfn = f.params[0]
+
+    def atom(e):
+        e = unawait(e)
+        if isinstance(e, ast.Name) and e.id == "allow_zeros":
+            return ("Z", True)
+        if isinstance(e, ast.Compare) and len(e.ops) == 1:
+            a, b, op = e.left, e.comparators[0], e.ops[0]
+            ka, kb = varkey(unawait(a)), varkey(unawait(b))
+            pair = {ka, kb}
+            pos = isinstance(op, (ast.Eq, ast.Is, ast.In))
+            if isinstance(op, (ast.Eq, ast.NotEq)):
+                if pair == {"arg1", selfn + ".local_id"}:
+                    return ("A1", pos)
+                if pair == {"arg0", selfn + ".remote_id"}:
+                    return ("A0", pos)
+                for nm, at in (("arg1", "Z1"), ("arg0", "Z0")):
+                    if (ka == nm and isinstance(b, ast.Constant) and b.value == 0) or (kb == nm and isinstance(a, ast.Constant) and a.value == 0):
+                        return (at, pos)
+            if isinstance(op, (ast.Is, ast.IsNot)) and ((ka == selfn + ".remote_id" and isinstance(b, ast.Constant) and b.value is None) or (kb == selfn + ".remote_id" and isinstance(a, ast.Constant) and a.value is None)):
+                return ("RN", pos)
+        return None
+
+    def ev(e, val):
+        e = unawait(e)
+        if isinstance(e, ast.Constant) and isinstance(e.value, bool):
+            return e.value
+        if isinstance(e, ast.UnaryOp) and isinstance(e.op, ast.Not):
+            r = ev(e.operand, val)
+            return None if r is None else (not r)
+        if isinstance(e, ast.BoolOp):
+            rs = [ev(v, val) for v in e.values]
+            if None in rs:
+                return None
+            return all(rs) if isinstance(e.op, ast.And) else any(rs)
+        if isinstance(e, ast.Compare) and len(e.ops) == 1 and isinstance(e.ops[0], (ast.In, ast.NotIn)) and isinstance(e.comparators[0], (ast.Tuple, ast.List, ast.Set)):
+            k = varkey(unawait(e.left))
+            rs = []
+            for x in e.comparators[0].elts:
+                sub = atom(ast.Compare(left=e.left, ops=[ast.Eq()], comparators=[x]))
+                if sub is None:
+                    return None
+                rs.append(val[sub[0]] == sub[1])
+            r = any(rs)
+            return r if isinstance(e.ops[0], ast.In) else (not r)
+        a = atom(e)
+        if a is not None:
+            return val[a[0]] == a[1]
+        return None
+
+    def run(stmts, val):
+        for st in stmts:
+            if isinstance(st, ast.Expr) and isinstance(st.value, ast.Constant):
+                continue
+            if isinstance(st, ast.Return):
+                return ("ret", ev(st.value, val) if st.value is not None else None)
+            if isinstance(st, ast.If):
+                t = ev(st.test, val)
+                if t is None:
+                    return ("unknown", src(st.test))
+                r = run(st.body if t else st.orelse, val)
+                if r is not None:
+                    return r
+                continue
+            return ("unknown", norm_stmt(st))
+        return None
+
+    bad = None
+    undecidable = None
+    n_rows = 0
+    for bits in itertools.product([False, True], repeat=len(atoms)):
+        val = dict(zip(atoms, bits))
+        want = (val["A1"] or (val["Z"] and val["Z1"])) and (val["RN"] or val["A0"] or (val["Z"] and val["Z0"]))
+        r = run(f.node.body, val)
+        n_rows += 1
+        if r is None or r[0] == "unknown" or r[1] is None:
+            undecidable = r[1] if r else "falls off the end"
+            break
+        if bool(r[1]) != bool(want):
+            bad = (val, r[1], want)
+            break
+    if undecidable is not None:
+        raise AnalysisError("MATCH-table", "cannot evaluate args_match over its comparisons (%s)" % undecidable)
+    R.check(bad is None, "MATCH-table", f.qualname, "args_match equals (arg1 ~ local id) and (remote unknown or arg0 ~ remote id) on all %d outcomes of its comparisons (0 accepted as wildcard only with allow_zeros)" % n_rows,
+            "args_match returns %s where the stream-matching rule requires %s, for %s" % (bad[1], bad[2], ", ".join("%s=%s" % kv for kv in sorted(bad[0].items()))) if bad else "", f.loc())
 
 
 def _nd_park(ctx, R):
